@@ -34,12 +34,25 @@ fn main() {
     // glibc malloc returns every large block to the kernel by default; with 16 threads each creating
     // thousands of short-lived compiler contexts per second that costs 10x in page faults and mmap
     // contention.  The tunables are read at process start, so re-exec once with them set.
-    if std::env::var_os("MALLOC_TRIM_THRESHOLD_").is_none() && matches!(args.get(1).map(|s| s.as_str()), Some("run") | Some("replay")) {
+    //
+    // Worker subprocesses (C04/C16 fault enumeration) must NOT run with these tunables: they judge memory and time
+    // behaviour of the real code on hostile inputs, and with the mmap threshold raised a 2 GiB `vec![0; n]` is
+    // really zeroed instead of being a lazy mapping.  They are re-exec'ed with the tunables removed.
+    let is_worker = std::env::vars_os().any(|(k, _)| { let k = k.to_string_lossy(); k.starts_with("VERIF_C") && k.ends_with("_WORKER") });
+    let want = if is_worker { "worker" } else { "main" };
+    if matches!(args.get(1).map(|s| s.as_str()), Some("run") | Some("replay")) && std::env::var("VERIF_MALLOC").ok().as_deref() != Some(want) {
         use std::os::unix::process::CommandExt;
-        let err = std::process::Command::new("/proc/self/exe").args(&args[1..])
-            .env("MALLOC_MMAP_THRESHOLD_", "4294967296").env("MALLOC_TRIM_THRESHOLD_", "4294967296").env("MALLOC_TOP_PAD_", "268435456")
-            .exec();
-        eprintln!("re-exec failed ({err}); continuing without malloc tunables");
+        let mut cmd = std::process::Command::new("/proc/self/exe");
+        cmd.args(&args[1..]).env("VERIF_MALLOC", want);
+        cmd.env("MALLOC_TRIM_THRESHOLD_", "4294967296");
+        if is_worker {
+            // keep freed memory, but leave the mmap threshold alone so that huge allocations stay lazy mappings
+            cmd.env_remove("MALLOC_MMAP_THRESHOLD_").env("MALLOC_TOP_PAD_", "67108864");
+        } else {
+            cmd.env("MALLOC_MMAP_THRESHOLD_", "4294967296").env("MALLOC_TOP_PAD_", "268435456");
+        }
+        let err = cmd.exec();
+        eprintln!("re-exec failed ({err}); continuing as is");
     }
     install_panic_hook();
     std::env::remove_var("TRUTH_MAP_PATH");
